@@ -350,7 +350,6 @@ type tstate[E any] struct {
 	snap  []string
 	idOf  map[string]int
 	out   pbt.Outcome
-	desc  string
 	zeroE string
 }
 
@@ -409,14 +408,20 @@ func newState[E any](c TCase, d dom[E]) *tstate[E] {
 	t.snap = t.ids(t.back)
 	var zero E
 	t.zeroE = d.id(zero)
-	t.desc = fmt.Sprintf("%s s=%v (= domain values number %v; domain: %v) spare=%d", c.Type, t.snap[:t.n], t.idx, t.domIDs(), len(t.back)-t.n)
-	if len(t.desc) > 1500 {
-		t.desc = fmt.Sprintf("%s s=%v (= domain values number %v, see the type's domain in types_test.go) spare=%d", c.Type, t.snap[:t.n], t.idx, len(t.back)-t.n)
-	}
 	return t
 }
 
 func (t *tstate[E]) domIDs() []string { return t.ids(t.d.vals) }
+
+// describe names the case's slice (only evaluated when something is wrong).
+func (t *tstate[E]) describe() string {
+	c := t.c
+	desc := fmt.Sprintf("%s s=%v (= domain values number %v; domain: %v) spare=%d", c.Type, t.snap[:t.n], t.idx, t.domIDs(), len(t.back)-t.n)
+	if len(desc) > 1500 {
+		desc = fmt.Sprintf("%s s=%v (= domain values number %v, see the type's domain in types_test.go) spare=%d", c.Type, t.snap[:t.n], t.idx, len(t.back)-t.n)
+	}
+	return desc
+}
 
 func (t *tstate[E]) ids(es []E) []string {
 	r := make([]string, len(es))
@@ -453,6 +458,11 @@ func (t *tstate[E]) cls(e E) int {
 	return -1
 }
 
+// lazy is a string that is only computed when it is printed.
+type lazy func() string
+
+func (l lazy) String() string { return l() }
+
 func eqStrs(a, b []string) bool {
 	if len(a) != len(b) {
 		return false
@@ -468,7 +478,7 @@ func eqStrs(a, b []string) bool {
 func (t *tstate[E]) intact(op string) string {
 	for i := range t.back {
 		if id := t.d.id(t.back[i]); id != t.snap[i] {
-			return fmt.Sprintf("%s modified its input (%s): position %d of the backing array is now %s, was %s", op, t.desc, i, id, t.snap[i])
+			return fmt.Sprintf("%s modified its input (%s): position %d of the backing array is now %s, was %s", op, t.describe(), i, id, t.snap[i])
 		}
 	}
 	return ""
@@ -479,7 +489,7 @@ func (t *tstate[E]) intact(op string) string {
 func (t *tstate[E]) checkNew(op string, got []E, wantIdx []int) string {
 	t.out.Evals++
 	if g, w := t.ids(got), t.idsAt(wantIdx); !eqStrs(g, w) {
-		return fmt.Sprintf("%s (%s) = %v, want %v", op, t.desc, g, w)
+		return fmt.Sprintf("%s (%s) = %v, want %v", op, t.describe(), g, w)
 	}
 	if m := t.intact(op); m != "" {
 		return m
@@ -497,13 +507,13 @@ func (t *tstate[E]) checkNew(op string, got []E, wantIdx []int) string {
 func (t *tstate[E]) checkSub(op string, got []E, lo, hi int) string {
 	t.out.Evals++
 	if g, w := t.ids(got), t.snap[lo:hi]; !eqStrs(g, w) {
-		return fmt.Sprintf("%s (%s) = %v, want s[%d:%d] = %v", op, t.desc, g, lo, hi, w)
+		return fmt.Sprintf("%s (%s) = %v, want s[%d:%d] = %v", op, t.describe(), g, lo, hi, w)
 	}
 	if m := t.intact(op); m != "" {
 		return m
 	}
 	if len(got) > 0 && unsafe.Sizeof(got[0]) > 0 && &got[0] != &t.s[lo] {
-		return fmt.Sprintf("%s (%s): result is not a sub-slice of its argument (different memory)", op, t.desc)
+		return fmt.Sprintf("%s (%s): result is not a sub-slice of its argument (different memory)", op, t.describe())
 	}
 	return ""
 }
@@ -511,7 +521,7 @@ func (t *tstate[E]) checkSub(op string, got []E, lo, hi int) string {
 func (t *tstate[E]) checkVal(op string, ok bool, got, want any) string {
 	t.out.Evals++
 	if !ok {
-		return fmt.Sprintf("%s (%s) = %v, want %v", op, t.desc, got, want)
+		return fmt.Sprintf("%s (%s) = %v, want %v", op, t.describe(), got, want)
 	}
 	return t.intact(op)
 }
@@ -601,14 +611,14 @@ func runAny[E any](t *tstate[E]) string {
 		if t.c.J >= 0 && t.c.J < n {
 			t.out.Evals++
 			if err != errs[t.c.J] || len(got) != 0 || calls != t.c.J+1 {
-				return fmt.Sprintf("%s (%s): returned (%v, %v) after %d calls, want no result, the error of call %d and %d calls", op, t.desc, t.ids(got), err, calls, t.c.J, t.c.J+1)
+				return fmt.Sprintf("%s (%s): returned (%v, %v) after %d calls, want no result, the error of call %d and %d calls", op, t.describe(), t.ids(got), err, calls, t.c.J, t.c.J+1)
 			}
 			if msg := t.intact(op); msg != "" {
 				return msg
 			}
 		} else {
 			if err != nil || calls != n {
-				return fmt.Sprintf("%s (%s): returned error %v after %d calls, want none after %d calls", op, t.desc, err, calls, n)
+				return fmt.Sprintf("%s (%s): returned error %v after %d calls, want none after %d calls", op, t.describe(), err, calls, n)
 			}
 			if msg := t.checkNew(op, got, t.idx); msg != "" {
 				return msg
@@ -696,11 +706,11 @@ func runAny[E any](t *tstate[E]) string {
 		groups := slices.GroupBy(s, func(e E) int { return t.cls(e) % m })
 		t.out.Evals++
 		if len(groups) != len(keys) {
-			return fmt.Sprintf("%s (%s): %d groups, want %d (keys %v)", op, t.desc, len(groups), len(keys), keys)
+			return fmt.Sprintf("%s (%s): %d groups, want %d (keys %v)", op, t.describe(), len(groups), len(keys), keys)
 		}
 		for i, g := range groups {
 			if g.Key != keys[i] || !eqStrs(t.ids(g.Values), t.idsAt(members[keys[i]])) {
-				return fmt.Sprintf("%s (%s): group %d is key %v members %v, want key %v members %v", op, t.desc, i, g.Key, t.ids(g.Values), keys[i], t.idsAt(members[keys[i]]))
+				return fmt.Sprintf("%s (%s): group %d is key %v members %v, want key %v members %v", op, t.describe(), i, g.Key, t.ids(g.Values), keys[i], t.idsAt(members[keys[i]]))
 			}
 		}
 		if msg := t.intact(op); msg != "" {
@@ -719,11 +729,11 @@ func runAny[E any](t *tstate[E]) string {
 		counts := slices.CountBy(s, func(e E) int { return t.cls(e) % m })
 		t.out.Evals++
 		if len(counts) != len(keys) {
-			return fmt.Sprintf("%s (%s) = %v, want keys %v", op, t.desc, counts, keys)
+			return fmt.Sprintf("%s (%s) = %v, want keys %v", op, t.describe(), counts, keys)
 		}
 		for i, c := range counts {
 			if c.Key != keys[i] || c.Count != len(members[keys[i]]) {
-				return fmt.Sprintf("%s (%s) = %v: entry %d, want key %v count %d", op, t.desc, counts, i, keys[i], len(members[keys[i]]))
+				return fmt.Sprintf("%s (%s) = %v: entry %d, want key %v count %d", op, t.describe(), counts, i, keys[i], len(members[keys[i]]))
 			}
 		}
 		if msg := t.intact(op); msg != "" {
@@ -779,7 +789,7 @@ func runAny[E any](t *tstate[E]) string {
 		var cl namedMap[int, E] = maps.Clone(mv)
 		t.out.Evals++
 		if !sameMV(cl) || cl == nil {
-			return fmt.Sprintf("maps.Clone(map position->element of %s): the clone (nil: %v, %d entries) is not a new equal map", t.desc, cl == nil, len(cl))
+			return fmt.Sprintf("maps.Clone(map position->element of %s): the clone (nil: %v, %d entries) is not a new equal map", t.describe(), cl == nil, len(cl))
 		}
 		for pos := 0; pos < n; pos++ {
 			cl[pos] = d.scribble
@@ -787,19 +797,19 @@ func runAny[E any](t *tstate[E]) string {
 		cl[n] = d.scribble
 		delete(cl, 0)
 		if !sameMV(mv) {
-			return fmt.Sprintf("maps.Clone(map position->element of %s): modifying the clone changed the original", t.desc)
+			return fmt.Sprintf("maps.Clone(map position->element of %s): modifying the clone changed the original", t.describe())
 		}
 		maps.Clear(cl)
 		t.out.Evals++
 		if len(cl) != 0 || !sameMV(mv) {
-			return fmt.Sprintf("maps.Clear(clone of map position->element of %s): %d entries left in the clone, original has %d entries", t.desc, len(cl), len(mv))
+			return fmt.Sprintf("maps.Clear(clone of map position->element of %s): %d entries left in the clone, original has %d entries", t.describe(), len(cl), len(mv))
 		}
 		keys := maps.Keys(mv)
 		sort.Ints(keys)
 		t.out.Evals++
 		for pos := 0; pos < n || pos < len(keys); pos++ {
 			if len(keys) != n || keys[pos] != pos {
-				return fmt.Sprintf("maps.Keys(map position->element of %s) = %v (sorted), want 0..%d", t.desc, keys, n-1)
+				return fmt.Sprintf("maps.Keys(map position->element of %s) = %v (sorted), want 0..%d", t.describe(), keys, n-1)
 			}
 		}
 		vals := t.ids(maps.Values(mv))
@@ -808,16 +818,16 @@ func runAny[E any](t *tstate[E]) string {
 		sort.Strings(wantV)
 		t.out.Evals++
 		if !eqStrs(vals, wantV) {
-			return fmt.Sprintf("maps.Values(map position->element of %s) = %v (sorted identities), want %v", t.desc, vals, wantV)
+			return fmt.Sprintf("maps.Values(map position->element of %s) = %v (sorted identities), want %v", t.describe(), vals, wantV)
 		}
 		for _, k := range []int{-1, 0, n - 1, n} {
 			t.out.Evals++
 			if got, want := maps.HasKey(mv, k), k >= 0 && k < n; got != want {
-				return fmt.Sprintf("maps.HasKey(map position->element of %s, %d) = %v, want %v", t.desc, k, got, want)
+				return fmt.Sprintf("maps.HasKey(map position->element of %s, %d) = %v, want %v", t.describe(), k, got, want)
 			}
 		}
 		if !sameMV(mv) || (mv == nil) != (n == 0 && t.c.Nil) {
-			return fmt.Sprintf("a maps helper modified its input (map position->element of %s)", t.desc)
+			return fmt.Sprintf("a maps helper modified its input (map position->element of %s)", t.describe())
 		}
 		if msg := t.intact("maps helpers on a map holding the elements"); msg != "" {
 			return msg
@@ -910,11 +920,14 @@ func runCmp[E comparable](t *tstate[E]) string {
 			return msg
 		}
 		if ex.Len() != exLen {
-			return fmt.Sprintf("ExceptSet(s, set%s) (%s) changed the exclude set: %d elements, was %d", setDesc, t.desc, ex.Len(), exLen)
+			return fmt.Sprintf("ExceptSet(s, set%s) (%s) changed the exclude set: %d elements, was %d", setDesc, t.describe(), ex.Len(), exLen)
 		}
 		for i, v := range d.vals {
+			if d.isOnce(i) {
+				continue // cannot be hashed
+			}
 			if ex.Has(v) != (!d.isIrrefl(i) && has(setCl, t.deq(i))) { // an irreflexive value is never found
-				return fmt.Sprintf("ExceptSet(s, set%s) (%s) changed the exclude set: Has(%s)=%v", setDesc, t.desc, d.id(v), ex.Has(v))
+				return fmt.Sprintf("ExceptSet(s, set%s) (%s) changed the exclude set: Has(%s)=%v", setDesc, t.describe(), d.id(v), ex.Has(v))
 			}
 		}
 	} else {
@@ -968,22 +981,22 @@ func runCmp[E comparable](t *tstate[E]) string {
 		groups := slices.GroupBy(s, func(e E) E { return e })
 		t.out.Evals++
 		if len(groups) != len(firstIdx) {
-			return fmt.Sprintf("GroupBy(s, v->v) (%s): %d groups, want %d", t.desc, len(groups), len(firstIdx))
+			return fmt.Sprintf("GroupBy(s, v->v) (%s): %d groups, want %d", t.describe(), len(groups), len(firstIdx))
 		}
 		for i, g := range groups {
 			if g.Key != d.vals[firstIdx[i]] || !eqStrs(t.ids(g.Values), t.idsAt(members[firstCl[i]])) {
-				return fmt.Sprintf("GroupBy(s, v->v) (%s): group %d is key %s members %v, want a key == %s and members %v", t.desc, i, d.id(g.Key), t.ids(g.Values),
+				return fmt.Sprintf("GroupBy(s, v->v) (%s): group %d is key %s members %v, want a key == %s and members %v", t.describe(), i, d.id(g.Key), t.ids(g.Values),
 					d.id(d.vals[firstIdx[i]]), t.idsAt(members[firstCl[i]]))
 			}
 		}
 		counts := slices.CountBy(s, func(e E) E { return e })
 		t.out.Evals++
 		if len(counts) != len(firstIdx) {
-			return fmt.Sprintf("CountBy(s, v->v) (%s): %d entries, want %d", t.desc, len(counts), len(firstIdx))
+			return fmt.Sprintf("CountBy(s, v->v) (%s): %d entries, want %d", t.describe(), len(counts), len(firstIdx))
 		}
 		for i, c := range counts {
 			if c.Key != d.vals[firstIdx[i]] || c.Count != len(members[firstCl[i]]) {
-				return fmt.Sprintf("CountBy(s, v->v) (%s): entry %d is key %s count %d, want a key == %s and count %d", t.desc, i, d.id(c.Key), c.Count,
+				return fmt.Sprintf("CountBy(s, v->v) (%s): entry %d is key %s count %d, want a key == %s and count %d", t.describe(), i, d.id(c.Key), c.Count,
 					d.id(d.vals[firstIdx[i]]), len(members[firstCl[i]]))
 			}
 		}
@@ -1046,9 +1059,13 @@ func runCmp[E comparable](t *tstate[E]) string {
 		}
 		mk := build()
 		want0 := wantPairs(0, true)
-		what := "map element->last position of " + t.desc
+		what := lazy(func() string {
+			if nanEntries > 0 {
+				return "map element->position (every irreflexive element is an entry of its own; the others: last position) of " + t.describe()
+			}
+			return "map element->last position of " + t.describe()
+		})
 		if nanEntries > 0 {
-			what = "map element->position (every irreflexive element is an entry of its own; the others: last position) of " + t.desc
 			t.out.Labels = append(t.out.Labels, "map-with-irreflexive-keys")
 		}
 		unchanged := func() bool { return eqStrs(pairsOf(mk), want0) && (mk == nil) == (n == 0 && t.c.Nil) }
@@ -1157,7 +1174,7 @@ func runCmp[E comparable](t *tstate[E]) string {
 		for pos := 0; pos < n; pos++ {
 			mv[pos] = s[pos]
 		}
-		what := "map position->element of " + t.desc
+		what := lazy(func() string { return "map position->element of " + t.describe() })
 		for i, v := range d.vals {
 			if !t.probeOK(i) {
 				continue
